@@ -140,8 +140,12 @@ fn main() {
         }
         "replay" => {
             let path = args.get(2).cloned().unwrap_or_default();
+            let mut replayed_prop = "?".to_string();
             if let Ok(t) = std::fs::read_to_string(&path) {
                 if let Ok(j) = json::parse(&t) {
+                    if let Some(p) = j.get("property").and_then(|x| x.str()) {
+                        replayed_prop = p.to_string();
+                    }
                     if let Some(w) = j.get("window").and_then(|x| x.usize()) {
                         if w != model::WINDOW {
                             eprintln!("HARNESS-ERROR: this replay was recorded with a {}-byte receive window; this binary has {} (./check replay picks the right build)", w, model::WINDOW);
@@ -155,8 +159,8 @@ fn main() {
                 let p2 = path.clone();
                 std::thread::spawn(move || {
                     std::thread::sleep(std::time::Duration::from_secs(25));
-                    println!("VIOLATION property=? replay={}", p2);
-                    println!("  class=hang detail=the replayed run did not return within 25 s");
+                    println!("VIOLATION property={} replay={}", replayed_prop, p2);
+                    println!("  class={}:hang detail=the replayed run did not return within 25 s", replayed_prop);
                     std::process::exit(1);
                 });
             }
